@@ -196,6 +196,19 @@ def harness(ctx):
         ii = maskA.nonzero().t()
         S = torch.sparse_coo_tensor(ii, Az[maskA], (n, n))
         if g == "sparse_getitem":
+            # an operand whose first row is empty: the slice [1:] contains every stored entry; the operand must survive the call
+            m2 = torch.ones(n, n, dtype=torch.bool)
+            m2[0, :] = False
+            A2 = A * m2
+            S2 = torch.sparse_coo_tensor(m2.nonzero().t(), A2[m2], (n, n))
+            def keep():
+                r1 = sparse.sparse_getitem(S2, slice(1, None)).to_dense()
+                ctx.eq(r1, A2[1:], "sparse_getitem[1:] (slice holding every entry)")
+                ctx.eq(S2.to_dense(), A2, "operand unchanged after sparse_getitem[1:]")
+                r2 = sparse.sparse_getitem(S2, (slice(None), slice(0, n))).to_dense()
+                ctx.eq(r2, A2, "sparse_getitem[:, 0:n] after a previous lookup")
+                ctx.eq(sparse.sparse_getitem(S2, n - 1).to_dense(), A2[n - 1], "sparse_getitem[n-1] after previous lookups")
+            attempt(ctx, "getitem-operand", keep)
             for k in range(n):
                 attempt(ctx, f"getitem[{k}]", lambda k=k: ctx.eq(sparse.sparse_getitem(S, k).to_dense(), Az[k], f"sparse_getitem[{k}]"))
                 attempt(ctx, f"getitem[:,{k}]", lambda k=k: ctx.eq(sparse.sparse_getitem(S, (slice(None), k)).to_dense(), Az[:, k], f"sparse_getitem[:,{k}]"))
@@ -247,6 +260,22 @@ def harness(ctx):
                 if not bool((d.abs() < 2e-6).any()):  # no jitter was needed on this path
                     ctx.eq(Q @ R, A, "stable_qr:Q R = A")
             attempt(ctx, g, chk)
+            if (r_, c_) == (2, 2):
+                # exactly rank-deficient input (a zero column): LAPACK returns an exactly zero pivot, which the
+                # stabilisation must still move away from zero
+                mz = torch.tensor([[True, False], [True, False]])
+                Az = ctx.leaf("Az", (2, 2), mask=mz)
+                def zc():
+                    rr = (Az[0, 0] ** 2 + Az[1, 0] ** 2).sqrt()
+                    Qz = torch.stack([torch.stack([Az[0, 0] / rr, -Az[1, 0] / rr]), torch.stack([Az[1, 0] / rr, Az[0, 0] / rr])])
+                    Rz = torch.stack([torch.stack([rr, rr * 0]), torch.stack([rr * 0, rr * 0])])
+                    ctx.register_qr(Az, Qz, Rz)
+                    Q, R = stable_qr(Az)
+                    d = torch.diagonal(R, dim1=-2, dim2=-1)
+                    ctx.true(d.abs() >= 1e-6 * (1 - 1e-9), "stable_qr:|R_ii| >= 1e-6 after stabilisation (zero column)")
+                    ctx.eq(torch.tril(R, -1), torch.zeros_like(R), "stable_qr:R upper (zero column)")
+                    ctx.eq(Q.mT @ Q, torch.eye(2, dtype=torch.float64), "stable_qr:Q^T Q = I (zero column)")
+                attempt(ctx, g + "/zerocol", zc)
         else:
             def chk():
                 # "stabilised": when |R_ii| < 1e-6 a jitter is added and the result is no longer the exact pseudo-inverse;
